@@ -19,26 +19,27 @@ FLAGS_c04 = -Iharness/mpishim
 FLAGS_c19 = -Iharness/mpishim
 FLAGS_c12 = -Iharness/mpishim
 FLAGS_c20 = -Iharness/mpishim -fsanitize=address,undefined -fno-sanitize-recover=undefined -D_GLIBCXX_ASSERTIONS
-FLAGS_c15 = -fsanitize=address,undefined -fno-sanitize-recover=undefined -D_GLIBCXX_ASSERTIONS
+FLAGS_c15 = -D_GLIBCXX_ASSERTIONS
 FLAGS_c17 = -fsanitize=address,undefined -fno-sanitize-recover=undefined -D_GLIBCXX_ASSERTIONS
 
-# checks built as three parts
-PARTED  = c02 c05 c06 c10 c11
-EXISTING = $(foreach c,$(filter-out $(PARTED),$(CHECKS)),$(if $(wildcard checks/$(c).cpp),$(B)/$(c))) \
-           $(foreach c,$(PARTED),$(if $(wildcard checks/$(c).cpp),$(B)/$(c).p0 $(B)/$(c).p1 $(B)/$(c).p2))
+# checks built in parts: name:count
+PARTED  = c02:3 c05:3 c06:3 c10:3 c11:3 c15:9
+PARTED_NAMES = $(foreach p,$(PARTED),$(firstword $(subst :, ,$(p))))
+parts_of = $(shell seq 0 $$(( $(word 2,$(subst :, ,$(1))) - 1 )))
+EXISTING = $(foreach c,$(filter-out $(PARTED_NAMES),$(CHECKS)),$(if $(wildcard checks/$(c).cpp),$(B)/$(c))) \
+           $(foreach p,$(PARTED),$(if $(wildcard checks/$(firstword $(subst :, ,$(p))).cpp),$(foreach k,$(call parts_of,$(p)),$(B)/$(firstword $(subst :, ,$(p))).p$(k))))
 
 all: $(EXISTING)
 
 $(B)/%: checks/%.cpp | $(B)
 	$(CXX) $(BASEFLAGS) $(OPT) $(FLAGS_$*) -MF $(B)/$*.d -MT $@ -o $@ $< $(LIBS_$*)
 
-# checks split into parts (one numeric type each) so that they compile in parallel
-$(B)/%.p0: checks/%.cpp | $(B)
-	$(CXX) $(BASEFLAGS) $(OPT) $(FLAGS_$*) -DVF_PART=0 -MF $(B)/$*.p0.d -MT $@ -o $@ $< $(LIBS_$*)
-$(B)/%.p1: checks/%.cpp | $(B)
-	$(CXX) $(BASEFLAGS) $(OPT) $(FLAGS_$*) -DVF_PART=1 -MF $(B)/$*.p1.d -MT $@ -o $@ $< $(LIBS_$*)
-$(B)/%.p2: checks/%.cpp | $(B)
-	$(CXX) $(BASEFLAGS) $(OPT) $(FLAGS_$*) -DVF_PART=2 -MF $(B)/$*.p2.d -MT $@ -o $@ $< $(LIBS_$*)
+# checks split into parts (compiled with -DVF_PART=k) so that the parts build in parallel
+define PART_RULE
+$$(B)/%.p$(1): checks/%.cpp | $$(B)
+	$$(CXX) $$(BASEFLAGS) $$(OPT) $$(FLAGS_$$*) -DVF_PART=$(1) -MF $$(B)/$$*.p$(1).d -MT $$@ -o $$@ $$< $$(LIBS_$$*)
+endef
+$(foreach k,0 1 2 3 4 5 6 7 8 9 10 11,$(eval $(call PART_RULE,$(k))))
 
 $(B):
 	mkdir -p $(B) $(B)/out
